@@ -226,10 +226,30 @@ func formatBoth(e *log.Event, w int) (j, x []byte, p any) {
 			tl = &log.TextLayout{BaseLayout: log.BaseLayout{FileLineLength: w}}
 			jsonLayouts[w], textLayouts[w] = jl, tl
 		}
-		j = bytes.Clone(jl.ToBytes(e))
-		x = bytes.Clone(tl.ToBytes(e))
+		// the lines are the caller's once ToBytes has returned (an asynchronous logger queues them):
+		// they are held un-copied while the same goroutine formats later events
+		rj := jl.ToBytes(e)
+		j = bytes.Clone(rj)
+		rx := tl.ToBytes(e)
+		x = bytes.Clone(rx)
+		_ = tl.ToBytes(laterEvent)
+		_ = jl.ToBytes(laterEvent)
+		if !bytes.Equal(rj, j) {
+			p = fmt.Sprintf("(not a panic) the JSON line handed out by ToBytes changed while later events were formatted (bufferCap=%d, len=%d cap=%d): now %q", log.BufferCap.Load(), len(rj), cap(rj), clipB(rj))
+		} else if !bytes.Equal(rx, x) {
+			p = fmt.Sprintf("(not a panic) the text line handed out by ToBytes changed while later events were formatted (bufferCap=%d, len=%d cap=%d): now %q", log.BufferCap.Load(), len(rx), cap(rx), clipB(rx))
+		}
 	})
 	return
+}
+
+var laterEvent = &log.Event{Level: log.InfoLevel, Time: time.Date(2026, 5, 6, 7, 8, 9, 0, time.UTC), File: "later.go", Line: 2, Tag: "_later", Fields: []log.Field{log.String("k", "~~~~~~~~~~~~~~~~")}}
+
+func clipB(b []byte) []byte {
+	if len(b) > 160 {
+		return b[:160]
+	}
+	return b
 }
 
 func property(t *rapid.T) {
@@ -241,6 +261,11 @@ func property(t *rapid.T) {
 	}
 	ctx := vk.GenFieldList(t, "ctx", 3, &st, opts())
 	fld := vk.GenFieldList(t, "fld", 7, &st, opts())
+	// the buffer-reuse cap (property bufferCap) at and around the capacities a line buffer really takes
+	bc := rapid.SampledFrom([]int{10240, 10240, 64, 128, 256, 512, 1024, 2048, 4096, 8192, 100, 1000}).Draw(t, "bufferCap")
+	log.BufferCap.Store(int32(bc))
+	defer log.BufferCap.Store(10240)
+	vk.Class(fmt.Sprintf("bufferCap:%d", bc))
 	e := &log.Event{Level: h.Level, Time: h.Time, File: h.File, Line: h.Line, Tag: h.Tag, Fields: fld.Fields, CtxString: h.Ctx, CtxFields: ctx.Fields}
 	desc := h.desc() + " ctx=[" + strings.Join(ctx.Desc, "; ") + "] fields=[" + strings.Join(fld.Desc, "; ") + "]"
 	flLen := len(h.File) + 1 + len(strconv.Itoa(h.Line))
